@@ -147,6 +147,18 @@ func c20(c *Ctx) {
 						}
 						return key, usage
 					}
+					// HTTP Basic credentials handed to the Kerberos Basic authenticator: whatever goes wrong, the password
+					// (here the marker, deliberately not the principal's real one half of the time) stays out of the error
+					for fi, form := range []string{"testuser1", "testuser1@" + realm, "TEST\\testuser1", "testuser1@UNKNOWN.REALM", "@" + realm, "testuser1@"} {
+						pw := pwMarker
+						if fi%2 == 1 {
+							pw = pwMarker + "x" // a wrong password that contains the marker
+						}
+						ba := service.NewKRB5BasicAuthenticator(base64.StdEncoding.EncodeToString([]byte(form+":"+pw)), cfg, service.NewSettings(keytab.New()), nil)
+						var berr error
+						guard(func() { _, _, berr = ba.Authenticate() })
+						addErr(fmt.Sprintf("service.KRB5BasicAuthenticator.Authenticate(form %d)", fi), berr)
+					}
 					addErr("client.Login", cl.Login())
 					_, _, terr := cl.GetServiceTicket("HTTP/host.test.gokrb5")
 					addErr("client.GetServiceTicket", terr)
